@@ -15,7 +15,7 @@ structure Event where
   atts : List (String × List (String × String)) := []
   parents : List String := []
   foreign : List (String × String) := []
-deriving Repr, BEq, DecidableEq
+deriving Repr, DecidableEq
 
 /-- All (property, object) pairs of an event. -/
 def Event.pairs (e : Event) : List (String × String) :=
